@@ -5,7 +5,7 @@ import z3
 from .values import *  # noqa
 from .state import *  # noqa
 from .contract import *  # noqa
-from .engine import Engine, Obl, exc_isa
+from .engine import flatten_and, Engine, Obl, exc_isa
 from . import source
 
 
@@ -55,7 +55,11 @@ def unchanged_obj(s0, s1, v, v1=None, skip_attrs=()):
             cs.append(FA([j], z3.Implies(z3.And(0 <= j, j < r0["len"]),
                                          z3.Select(r1["elem"], j) == z3.Select(r0["elem"], j))))
     elif v.kind == "dict":
-        if r0.get("lazy") or r1.get("lazy"):
+        if r0.get("pure") or r1.get("pure"):
+            same = bool(r0.get("pure") and r1.get("pure")) and len(r0["pyitems"]) == len(r1["pyitems"]) and all(
+                a[0] == b[0] and a[1] is b[1] for a, b in zip(r0["pyitems"], r1["pyitems"]))
+            cs.append(z3.BoolVal(same))
+        elif r0.get("lazy") or r1.get("lazy"):
             if not (r0.get("lazy") and r1.get("lazy")):
                 k = z3.Const(fresh_name("fk"), (r1 if r0.get("lazy") else r0)["dom"].sort().domain())
                 cs.append(FA([k], z3.Not(z3.Select((r1 if r0.get("lazy") else r0)["dom"], k))))
@@ -88,7 +92,7 @@ def unchanged_obj(s0, s1, v, v1=None, skip_attrs=()):
 
 def frame_goal(eng, con, E, s0, s1, modified):
     """Everything not listed in `modified` is unchanged."""
-    mod_oids = {loc[1].oid for loc in modified if loc[0] in ("list", "dict", "set", "obj")}
+    mod_oids = {loc[1].oid for loc in modified if loc[0] in ("list", "dict", "set", "obj", "record_put", "record_keys")}
     mod_heap = {loc[1] for loc in modified if loc[0] == "heap"}
     mod_attrs = {(loc[1].oid, loc[2]) for loc in modified if loc[0] == "attr"}
     for loc in modified:
@@ -211,7 +215,10 @@ def verify_case(reg, con, case, hooks=None):
         except Unsupported as e:
             res.unsupported = f"spec evaluation: {e}"
             continue
-        eng.obls.append(Obl(f"{eng.prefix}/{what}/post", s.pc, goal, "post", {"exit": tag}))
+        parts = flatten_and(goal)       # one obligation per top-level conjunct: smaller queries, finer-grained reports
+        for pi, g in enumerate(parts):
+            nm = f"{eng.prefix}/{what}/post" + (f".{pi + 1}" if len(parts) > 1 else "")
+            eng.obls.append(Obl(nm, s.pc, g, "post", {"exit": tag}))
         if not z3.is_true(fr):
             eng.obls.append(Obl(f"{eng.prefix}/{what}/frame", s.pc, fr, "frame", {"exit": tag}))
     res.obls = eng.obls
